@@ -382,6 +382,12 @@ class Check(FormulaCheck):
                     p.on(ev2, lambda *a: a[-1]('nested-value') if depth[0] else None)
                 rec.cov('reentrant_listener', kind)
             f = {'cell': rand_cell(rnd)[0], 'range': rand_cell(rnd)[0] + ':' + rand_cell(rnd)[0], 'var': 'foo', 'fn': 'FA(1)'}[kind]
+            if kind in ('cell', 'range') and rnd.random() < 0.4:
+                # a variable that happens to be spelled like the reference (a name such as Q1, FY2024): the reference is still the cell
+                for lab in f.split(':'):
+                    for spelling in {lab, lab.upper(), lab.replace('$', ''), lab.replace('$', '').upper()}:
+                        p.set_variable(spelling, 'decoy-variable')
+                rec.count('variables_spelled_like_the_reference')
             r = self.parse(f)
             flat = [v for vals in script for v in vals if v is not None]
             exp = flat[-1] if flat else base
